@@ -1505,6 +1505,229 @@ fn c05_twice_leaf() {
     assert!(hash_history_contains_hash_twice(&l, &zob(h)) == (occurrences >= 2), "C05: 'already occurred twice' is decided by counting the recorded turn-start hashes");
 }
 // ===========================================================================
+// C10: all views of the board agree
+// ===========================================================================
+// @obl props=C10,C08,C19 tier=quick kind=harness-contract mem=3 est=20
+// @fns PieceBoardState::bits_for_piece PieceBoardState::player_piece_mask PieceBoardState::bits_by_piece_type PieceBoardState::piece_type_at_square PieceBoard::new PieceBoard::initial PieceBoard::piece_board
+// @clause requires board_wf ensures per square i: bits_for_piece(p,g) has bit i <=> at(i)==(p,g); player_piece_mask(g) <=> owner g; bits_by_piece_type(p) <=> type p; piece_type_at_square == type of at(i); board_wf <=> every square holds at most one type, all_pieces is the union, owners only on occupied squares (per-square restatement); PieceBoard::new derives all_pieces as the union and yields a board_wf board from disjoint type words; the empty board is board_wf
+#[kani::proof]
+fn c10_views_agree() {
+    let pb = any_board_raw();
+    let i = any_sq();
+    let p = any_piece();
+    let g: bool = kani::any();
+    // board_wf in word form <=> per-square form (ties the invariant to the abstract view `at`)
+    if board_wf(&pb) {
+        assert!(board_wf_at(&pb, i), "C10: board_wf implies exactly one type and an owner only on occupied squares");
+        kani::cover!(at(&pb, i) == Some((Piece::Dog, false)));
+        let a = at(&pb, i);
+        assert!(bit(pb.bits_for_piece(p, g), i) == (a == Some((p, g))), "C10: bits_for_piece");
+        assert!(bit(pb.player_piece_mask(g), i) == match a { Some((_, o)) => o == g, None => false }, "C10: player_piece_mask");
+        assert!(bit(pb.bits_by_piece_type(p), i) == match a { Some((t, _)) => t == p, None => false }, "C10: bits_by_piece_type");
+        assert!(pb.piece_type_at_square(&sq(i)) == a.map(|(t, _)| t), "C10: piece_type_at_square");
+        assert!(bit(pb.all_pieces, i) == a.is_some(), "C10: all_pieces is the occupancy");
+    }
+    let n = PieceBoard::new(pb.p1_pieces, pb.elephants, pb.camels, pb.horses, pb.dogs, pb.cats, pb.rabbits);
+    let nb = n.piece_board();
+    assert!(nb.all_pieces == (pb.elephants | pb.camels | pb.horses | pb.dogs | pb.cats | pb.rabbits), "C10: PieceBoard::new derives all_pieces as the union");
+    assert!(nb.p1_pieces == pb.p1_pieces && nb.elephants == pb.elephants && nb.rabbits == pb.rabbits && nb.cats == pb.cats && nb.dogs == pb.dogs && nb.horses == pb.horses && nb.camels == pb.camels);
+    assert!(board_wf(PieceBoard::initial().piece_board()) && PieceBoard::initial().piece_board().all_pieces == 0, "C10: the empty board");
+}
+// @obl props=C10,C02 tier=thorough kind=harness-contract mem=4 est=600 timeout=3000
+// @fns PieceBoard::take_action
+// @clause material: for every legal board, step onto an empty neighbour, type p and colour g: the number of (p,g) pieces after the step is <= the number before (so the per-side limits 1,1,2,2,2,8 established in setup are never exceeded), and strictly smaller for the captured piece's kind when the step captures
+#[kani::proof]
+fn c10_material_never_increases() {
+    let pb = any_legal_board();
+    let src = any_sq();
+    let d = any_direction();
+    kani::assume(at(&pb, src).is_some());
+    let dst = match nbr(src, d) {
+        Some(j) => j,
+        None => {
+            kani::assume(false);
+            0
+        }
+    };
+    kani::assume(at(&pb, dst).is_none());
+    let p = any_piece();
+    let g: bool = kani::any();
+    kani::cover!(captures_any(&pb, src, dst));
+    let (nb, flag) = PieceBoard(pb.clone()).take_action(&mv(src, d));
+    assert!(count(&nb, p, g) <= count(&pb, p, g), "C10/C02: material never increases");
+    assert!(nb.all_pieces.count_ones() + (if flag { 1 } else { 0 }) == pb.all_pieces.count_ones(), "C13/C05: a step removes exactly one piece when it captures, none otherwise");
+}
+// ===========================================================================
+// C11: symmetry.  Relational (two-run) lemmas on the real functions, no rule oracle involved:
+// f(sigma x) == sigma f(x) for sigma = file mirror (a<->h) and sigma = colour swap + rank flip (1<->8).
+// sigma on boards is defined per square (vspec::mir_board / swap_board), not by a bit trick.
+// ===========================================================================
+#[derive(Clone, Copy)]
+pub enum Sym {
+    Mirror,
+    Swap,
+}
+pub fn sym_sq(s: Sym, i: u8) -> u8 {
+    match s {
+        Sym::Mirror => mir_sq(i),
+        Sym::Swap => flip_sq(i),
+    }
+}
+pub fn sym_dir(s: Sym, d: Direction) -> Direction {
+    match s {
+        Sym::Mirror => mir_dir(d),
+        Sym::Swap => flip_dir(d),
+    }
+}
+pub fn sym_side(s: Sym, g: bool) -> bool {
+    match s {
+        Sym::Mirror => g,
+        Sym::Swap => !g,
+    }
+}
+pub fn sym_board(s: Sym, pb: &PieceBoardState) -> PieceBoardState {
+    match s {
+        Sym::Mirror => mir_board(pb),
+        Sym::Swap => swap_board(pb),
+    }
+}
+pub fn sym_status(s: Sym, st: PushPullState) -> PushPullState {
+    match st {
+        PushPullState::None => PushPullState::None,
+        PushPullState::PossiblePull(q, p) => PushPullState::PossiblePull(sq(sym_sq(s, q.index() as u8)), p),
+        PushPullState::MustCompletePush(q, p) => PushPullState::MustCompletePush(sq(sym_sq(s, q.index() as u8)), p),
+    }
+}
+pub fn sym_terminal(s: Sym, t: Option<Terminal>) -> Option<Terminal> {
+    match s {
+        Sym::Mirror => t,
+        Sym::Swap => swap_terminal(t),
+    }
+}
+fn sym_lemma_view(s: Sym) {
+    // sigma really is the geometric map on the abstract view: at(sigma pb, sigma i) == sigma at(pb, i)
+    let pb = any_wf_board();
+    let i = any_sq();
+    let spb = sym_board(s, &pb);
+    assert!(board_wf(&spb), "C11: sigma maps well-formed boards to well-formed boards");
+    assert!(at(&spb, sym_sq(s, i)) == at(&pb, i).map(|(t, g)| (t, sym_side(s, g))), "C11: sigma on boards is the per-square map");
+    assert!(sym_sq(s, sym_sq(s, i)) == i);
+}
+fn sym_board_step(s: Sym) {
+    let pb = any_wf_board();
+    let i = any_sq();
+    let d = any_direction();
+    let q = any_sq();
+    // an offered step: an occupied square, an empty on-board neighbour
+    kani::assume(at(&pb, i).is_some());
+    match nbr(i, d) {
+        Some(j) => kani::assume(at(&pb, j).is_none()),
+        None => kani::assume(false),
+    }
+    kani::cover!(true);
+    let (n1, f1) = PieceBoard(pb.clone()).take_action(&mv(i, d));
+    let (n2, f2) = PieceBoard(sym_board(s, &pb)).take_action(&mv(sym_sq(s, i), sym_dir(s, d)));
+    assert!(f1 == f2, "C11: captures map to captures");
+    assert!(at(&n2, sym_sq(s, q)) == at(&n1, q).map(|(t, g)| (t, sym_side(s, g))), "C11: applying the mirrored step to the mirrored board gives the mirrored board");
+    assert!(bit(sym_board(s, &pb).trapped_piece_bits(), sym_sq(s, q)) == bit(pb.trapped_piece_bits(), q), "C11: trapped pieces");
+}
+// @obl props=C11 tier=quick kind=lemma mem=6 est=200 timeout=1800
+// @fns PieceBoard::take_action PieceBoardState::trapped_piece_bits
+// @clause file mirror: sigma is the per-square map on the abstract view; take_action(sigma b, sigma a) == sigma take_action(b, a) per square, same capture flag; trapped_piece_bits commute (all well-formed boards, all steps)
+#[kani::proof]
+fn c11_mirror_board_step() {
+    sym_lemma_view(Sym::Mirror);
+    sym_board_step(Sym::Mirror);
+}
+// @obl props=C11 tier=quick kind=lemma mem=6 est=200 timeout=1800
+// @fns PieceBoard::take_action PieceBoardState::trapped_piece_bits
+// @clause colour swap + rank flip: same statement
+#[kani::proof]
+fn c11_swap_board_step() {
+    sym_lemma_view(Sym::Swap);
+    sym_board_step(Sym::Swap);
+}
+fn sym_masks(s: Sym) {
+    let pb = any_wf_board();
+    let side: bool = kani::any();
+    let i = any_sq();
+    let d = any_direction();
+    let spb = sym_board(s, &pb);
+    let g1 = lean_state(side);
+    let g2 = lean_state(sym_side(s, side));
+    let (si, sd) = (sym_sq(s, i), sym_dir(s, d));
+    kani::cover!(true);
+    assert!(bit(g2.curr_player_non_frozen_pieces(&spb), si) == bit(g1.curr_player_non_frozen_pieces(&pb), i), "C11: freezing");
+    // the three masks the step generator combines
+    let m1 = can_move_in_direction(&d, &pb) & g1.curr_player_non_frozen_pieces(&pb) & !g1.invalid_rabbit_moves(&d, &pb);
+    let m2 = can_move_in_direction(&sd, &spb) & g2.curr_player_non_frozen_pieces(&spb) & !g2.invalid_rabbit_moves(&sd, &spb);
+    assert!(bit(m2, si) == bit(m1, i), "C11: offered single steps map to offered single steps");
+    // push starts
+    let t1 = g1.threatened_pieces(g1.curr_player_non_frozen_pieces(&pb), g1.opponent_piece_mask(&pb), &pb) & can_move_in_direction(&d, &pb);
+    let t2 = g2.threatened_pieces(g2.curr_player_non_frozen_pieces(&spb), g2.opponent_piece_mask(&spb), &spb) & can_move_in_direction(&sd, &spb);
+    assert!(bit(t2, si) == bit(t1, i), "C11: offered push starts map to offered push starts");
+    // results
+    assert!(g2.rabbit_at_goal(&spb) == sym_terminal(s, g1.rabbit_at_goal(&pb)), "C11: goal results map to swapped results");
+    assert!(g2.lost_all_rabbits(&spb) == sym_terminal(s, g1.lost_all_rabbits(&pb)), "C11: elimination results map to swapped results");
+}
+// @obl props=C11 tier=quick kind=lemma mem=6 est=200 timeout=1800
+// @fns GameState::curr_player_non_frozen_pieces can_move_in_direction GameState::invalid_rabbit_moves GameState::threatened_pieces GameState::rabbit_at_goal GameState::lost_all_rabbits
+// @clause file mirror: the freezing mask, the per-direction single-step mask and push-start mask (exactly the words the generators hand to the seam), and the goal / elimination results commute with sigma (all well-formed boards, both sides)
+#[kani::proof]
+fn c11_mirror_masks() {
+    sym_masks(Sym::Mirror);
+}
+// @obl props=C11 tier=quick kind=lemma mem=6 est=200 timeout=1800
+// @fns GameState::curr_player_non_frozen_pieces can_move_in_direction GameState::invalid_rabbit_moves GameState::threatened_pieces GameState::rabbit_at_goal GameState::lost_all_rabbits
+// @clause colour swap + rank flip: same statement, with Gold and Silver exchanged in the results
+#[kani::proof]
+fn c11_swap_masks() {
+    sym_masks(Sym::Swap);
+}
+fn sym_status_machine(s: Sym) {
+    let pb = any_wf_board();
+    let side: bool = kani::any();
+    let st = any_status();
+    let i = any_sq();
+    let d = any_direction();
+    kani::assume(wf_status(&pb, side, 1, pp_of(st)));
+    kani::assume(offered_move(&pb, side, 1, pp_of(st), i, d));
+    let spb = sym_board(s, &pb);
+    let g1 = play_state(&pb, side, 1, st);
+    let g2 = play_state(&spb, sym_side(s, side), 1, sym_status(s, st));
+    kani::cover!(true);
+    let r1 = g1.next_push_pull_state(&sq(i), &d);
+    let r2 = g2.next_push_pull_state(&sq(sym_sq(s, i)), &sym_dir(s, d));
+    assert!(r2 == sym_status(s, r1), "C11: the push/pull status machine commutes with sigma");
+    let (j, e) = (any_sq(), any_direction());
+    if matches!(st, PushPullState::MustCompletePush(_, _)) {
+        let v1 = g1.must_complete_push_actions(&pb);
+        let v2 = g2.must_complete_push_actions(&spb);
+        assert!(has_move_in(&v2, sym_sq(s, j), sym_dir(s, e)) == has_move_in(&v1, j, e), "C11: push completions map to push completions");
+    }
+    let mut p1: Vec<Action> = Vec::with_capacity(8);
+    let mut p2: Vec<Action> = Vec::with_capacity(8);
+    g1.extend_with_pull_piece_actions(&mut p1, &pb);
+    g2.extend_with_pull_piece_actions(&mut p2, &spb);
+    assert!(has_move_in(&p2, sym_sq(s, j), sym_dir(s, e)) == has_move_in(&p1, j, e), "C11: pull completions map to pull completions");
+}
+// @obl props=C11 tier=quick kind=lemma mem=8 est=300 timeout=2400
+// @fns GameState::next_push_pull_state GameState::must_complete_push_actions GameState::extend_with_pull_piece_actions
+// @clause file mirror: next_push_pull_state, the push-completion list and the pull-completion list commute with sigma (membership of every (square, direction))
+#[kani::proof]
+#[kani::unwind(6)]
+fn c11_mirror_status() {
+    sym_status_machine(Sym::Mirror);
+}
+// @obl props=C11 tier=quick kind=lemma mem=8 est=300 timeout=2400
+// @fns GameState::next_push_pull_state GameState::must_complete_push_actions GameState::extend_with_pull_piece_actions
+// @clause colour swap + rank flip: same statement
+#[kani::proof]
+#[kani::unwind(6)]
+fn c11_swap_status() {
+    sym_status_machine(Sym::Swap);
+}
+// ===========================================================================
 // meta: the canary.  An `ensures` that is false on the real supported_pieces; it must FAIL.
 // If it ever passes, the pipeline is not checking anything and the whole run is UNDECIDED.
 // ===========================================================================
